@@ -30,6 +30,9 @@ const (
 	pYield
 	pOnce
 	pSync
+	pPeek      // len(ch) / cap(ch): reads the channel's state, a visible operation on that channel
+	pWaitGroup // WaitGroup.Wait: enabled when the counter is zero
+	pLock      // Mutex.Lock: enabled when the mutex is free
 )
 
 type selCase struct {
@@ -54,6 +57,8 @@ type ThreadX struct {
 	hasDefault bool
 	once       *onceState
 	syncObj    int
+	wg         *wgState
+	mu         *muState
 	// results
 	rval   Value
 	rok    bool
@@ -63,6 +68,17 @@ type ThreadX struct {
 	env    bool // spawned by harness code: an environment actor (master, canceller)
 	site   string
 	depth  int
+	vc     vclock
+}
+
+// wgState / muState: sync.WaitGroup and sync.(RW)Mutex, keyed by the address of the variable.
+type wgState struct {
+	n  int64
+	vc vclock
+}
+
+type muState struct {
+	locked bool
 	vc     vclock
 }
 
@@ -87,7 +103,7 @@ func (e *Exec) transIdent(tr transition) transID {
 		id.partner = tr.partner.id
 	}
 	switch t.pend {
-	case pSend, pRecv, pClose:
+	case pSend, pRecv, pClose, pPeek:
 		if t.ch != nil {
 			id.objs = fmt.Sprintf("c%d", t.ch.id)
 		}
@@ -103,6 +119,10 @@ func (e *Exec) transIdent(tr transition) transID {
 		id.objs = fmt.Sprintf("o%p", t.once)
 	case pSync:
 		id.objs = fmt.Sprintf("s%d", t.syncObj)
+	case pWaitGroup:
+		id.objs = fmt.Sprintf("w%p", t.wg)
+	case pLock:
+		id.objs = fmt.Sprintf("m%p", t.mu)
 	case pQuiesce:
 		id.objs = "*"
 	}
@@ -204,6 +224,8 @@ type schedState struct {
 	finished chan interface{}
 	wg       sync.WaitGroup
 	once     map[*Value]*onceState
+	wgs      map[*Value]*wgState
+	mus      map[*Value]*muState
 	sleep    map[transID]bool
 	race     *raceState
 }
@@ -374,10 +396,18 @@ func (e *Exec) enabled() []transition {
 			continue
 		}
 		switch t.pend {
-		case pStart, pResume, pYield, pClose, pSync:
+		case pStart, pResume, pYield, pClose, pSync, pPeek:
 			out = append(out, transition{t: t})
 		case pOnce:
 			if t.once.state != 1 {
+				out = append(out, transition{t: t})
+			}
+		case pWaitGroup:
+			if t.wg.n == 0 {
+				out = append(out, transition{t: t})
+			}
+		case pLock:
+			if !t.mu.locked {
 				out = append(out, transition{t: t})
 			}
 		case pSend:
@@ -431,7 +461,9 @@ func (e *Exec) perform(tr transition) {
 	c := e.ctx
 	_ = c
 	switch t.pend {
-	case pStart, pResume, pYield, pQuiesce, pSync:
+	case pStart, pResume, pYield, pQuiesce, pSync, pWaitGroup, pPeek:
+	case pLock:
+		t.mu.locked = true
 	case pClose:
 		if t.ch == nil {
 			e.ss.cur = t
@@ -589,6 +621,17 @@ func (e *Exec) chanClose(ch *ChanObj) {
 	}
 }
 
+// chanPeek: len(ch) / cap(ch) observe the channel's state; with several threads this is a visible
+// operation that depends on every send, receive and close of that channel.
+func (e *Exec) chanPeek(ch *ChanObj) {
+	if e.ss == nil || len(e.ss.threads) == 1 || ch == nil {
+		return
+	}
+	t := e.ss.cur
+	t.pend, t.ch = pPeek, ch
+	e.reschedule()
+}
+
 func (e *Exec) yield() {
 	t := e.ss.cur
 	if len(e.ss.threads) == 1 {
@@ -621,6 +664,82 @@ func (e *Exec) quiesce() {
 	t := e.ss.cur
 	t.pend = pQuiesce
 	e.reschedule()
+}
+
+// ---- sync.WaitGroup / sync.Mutex ----
+
+func (e *Exec) wgOf(cell *Value) *wgState {
+	ss := e.ss
+	if ss.wgs == nil {
+		ss.wgs = map[*Value]*wgState{}
+	}
+	st := ss.wgs[cell]
+	if st == nil {
+		st = &wgState{}
+		ss.wgs[cell] = st
+	}
+	return st
+}
+
+func (e *Exec) wgAdd(cell *Value, delta int64) {
+	st := e.wgOf(cell)
+	st.n += delta
+	if st.n < 0 {
+		e.rtPanic("explicit", "sync: negative WaitGroup counter")
+	}
+	if delta < 0 {
+		// Done happens before the Wait it unblocks
+		e.ss.cur.releaseTo(&st.vc)
+	}
+	// counter changes are visible operations: a waiter may become enabled
+	if len(e.ss.threads) > 1 {
+		t := e.ss.cur
+		t.pend, t.syncObj = pSync, -1
+		e.reschedule()
+	}
+}
+
+func (e *Exec) wgWait(cell *Value) {
+	st := e.wgOf(cell)
+	t := e.ss.cur
+	t.pend, t.wg = pWaitGroup, st
+	e.reschedule() // a counter that never reaches zero is a deadlock
+	t.acquireFrom(st.vc)
+}
+
+func (e *Exec) muOf(cell *Value) *muState {
+	ss := e.ss
+	if ss.mus == nil {
+		ss.mus = map[*Value]*muState{}
+	}
+	st := ss.mus[cell]
+	if st == nil {
+		st = &muState{}
+		ss.mus[cell] = st
+	}
+	return st
+}
+
+func (e *Exec) muLock(cell *Value) {
+	st := e.muOf(cell)
+	t := e.ss.cur
+	t.pend, t.mu = pLock, st
+	e.reschedule() // locking a mutex nobody will unlock is a deadlock
+	t.acquireFrom(st.vc)
+}
+
+func (e *Exec) muUnlock(cell *Value) {
+	st := e.muOf(cell)
+	if !st.locked {
+		e.rtPanic("explicit", "sync: unlock of unlocked mutex")
+	}
+	st.locked = false
+	e.ss.cur.releaseTo(&st.vc)
+	if len(e.ss.threads) > 1 {
+		t := e.ss.cur
+		t.pend, t.syncObj = pSync, -2
+		e.reschedule()
+	}
 }
 
 func (e *Exec) onceDo(cell *Value, f Value, caller *Frame) {
